@@ -247,6 +247,75 @@ def digit_tags(run: Run, model: PyModel, ts) -> None:
     run.floor("_add_tag paths", n, 6)
 
 
+def scope_scenarios(run: Run, model: PyModel, tree0) -> None:
+    """A concrete page driven through the listener in ParseTreeWalker order (drive.py): the SAME tag / property value is written at several scopes
+    (title line, an item, the header of the section that follows that item, a sub-section, an item again) -- the typestate walk above labels values by
+    where they were written and does not model equality of values, so it cannot see a scope that is skipped because its value 'is already there'.
+    Every note must carry exactly the values of the title line, its open enclosing sections and itself."""
+    from ..absint import State
+    from ..drive import Driver, T, header_tree, head_tree, item_tree
+    from ..grammar import FILE_LEXER, LexerGrammar
+
+    lx = LexerGrammar(run.repo, FILE_LEXER)
+    H = {l: lx.literal_of(f"H{l}_HEADER") for l in (1, 2, 3, 4)}
+    if any(v is None for v in H.values()):
+        run.undecided("C02.R2", "lexer", "cannot read the section markers from the lexer grammar")
+        return
+
+    def block(*items):
+        return T("block", kids=list(items))
+
+    page = [
+        head_tree("title +T #shared", 1),
+        block(item_tree("-", "first item +X #shared k::v1", None, 3)),
+        T("h1_section", kids=[header_tree(1, H[1], "Sec +X +S k::v2", 5), block(item_tree("-", "second item", None, 6), item_tree("-", "third +X +S again", None, 7)),
+                              T("h2_section", kids=[header_tree(2, H[2], "Sub +U +X", 8), block(item_tree("-", "fourth", None, 9))]),
+                              T("h2_section", kids=[header_tree(2, H[2], "Sub2 +X", 10), block(item_tree("-", "fifth", None, 11))])]),
+        T("h1_section", kids=[header_tree(1, H[1], "Other +X", 12), block(item_tree("-", "sixth", None, 13))]),
+        T("h1_section", kids=[header_tree(1, H[1], "Last", 14), block(item_tree("-", "seventh", None, 15))]),
+    ]
+    want = {3: ({"T", "X"}, {"k": "v1"}), 6: ({"T", "X", "S"}, {"k": "v2"}), 7: ({"T", "X", "S"}, {"k": "v2"}), 9: ({"T", "X", "S", "U"}, {"k": "v2"}), 11: ({"T", "X", "S"}, {"k": "v2"}),
+            13: ({"T", "X"}, {}), 15: ({"T"}, {})}
+    D = Driver(model)
+    st = State()
+    try:
+        root = D.new_listener(st, tree0)
+        raised = None
+        for part in page:
+            raised = D.walk(st, root, part)
+            if raised is not None:
+                break
+    except Exception as e:  # noqa: BLE001
+        run.undecided("C02.R2", "ZorgFileCompiler", f"cannot drive the listener over the scope scenario: {type(e).__name__}: {str(e)[:120]}")
+        return
+    if raised is not None or st.imprecise:
+        run.undecided("C02.R2", "ZorgFileCompiler", "scope scenario: " + (f"raises {raised.exc}" if raised is not None else "; ".join(st.imprecise[:2])))
+        return
+    by_line = {n.get("line_no"): n for n in D.notes}
+    run.floor("notes of the scope scenario", len(by_line), 7)
+    for ln, (projects, props) in want.items():
+        n = by_line.get(ln)
+        if n is None:
+            run.refuted("C02.R3", "ZorgFileCompiler", f"scope scenario: no note for line {ln}", f"the item on line {ln} of the scope scenario compiles to no note", file=FILE)
+            continue
+        got_p = n.get("projects")
+        got_k = n.get("properties")
+        ok_p = isinstance(got_p, list) and set(got_p) == projects
+        miss = sorted(projects - set(got_p)) if isinstance(got_p, list) else []
+        extra = sorted(set(got_p) - projects) if isinstance(got_p, list) else []
+        rid = "C02.R3" if miss else "C02.R2"
+        run.check(rid, f"scope scenario, line {ln}: projects are exactly those of the title, the open sections and the item ({sorted(projects)})", ok_p, "ZorgFileCompiler", f"line {ln}: projects {got_p}",
+                  f"in a page where +X is written on an item, on the header of the section after it, on sub-sections and on later sections, the note on line {ln} gets projects {got_p}, expected {sorted(projects)}"
+                  + (f": {miss} of an enclosing scope is lost (a value that 'was already there' when the header was read is not recorded for the section)" if miss else "")
+                  + (f": {extra} leaks in from a closed scope" if extra else ""), file=FILE)
+        ok_k = isinstance(got_k, dict) and {k: v for k, v in got_k.items()} == props
+        run.check("C02.R4", f"scope scenario, line {ln}: properties are {props}", ok_k, "ZorgFileCompiler", f"line {ln}: properties {got_k}",
+                  f"the note on line {ln} gets properties {got_k}, expected {props} (innermost scope that defines the key wins; closed sections contribute nothing)", file=FILE)
+        got_a = n.get("areas")
+        run.check("C02.R2", f"scope scenario, line {ln}: areas are ['shared'] (title line; written again on the first item)", isinstance(got_a, list) and set(got_a) == {"shared"}, "ZorgFileCompiler",
+                  f"line {ln}: areas {got_a}", f"the note on line {ln} gets areas {got_a}, expected ['shared'] from the title line", file=FILE)
+
+
 def check(run: Run) -> None:
     model = PyModel(run.repo)
     run.rule("C02.R1", "credit map: the store that receives an occurrence is determined by its grammar position (title line / later header lines / Hk header / item / in-block comment / quoted)")
@@ -264,6 +333,7 @@ def check(run: Run) -> None:
     leak_checks(run, ts)
     precedence(run, model, ts)
     digit_tags(run, model, ts)
+    scope_scenarios(run, model, ts.tree0)
     run.units = dict(typestate=ts.stats, handlers=sum(len(v) for v in ts.handlers.values()), shadowed_alternatives=[list(x) for x in ts.dead_edges],
                      grammar_rules=len(ts.grammar.rule_names))
     run.trusted = ["CPython ast", "antlr4 ATNDeserializer", "ParseTreeWalker contract (enterR, children, exitR)", "ANTLR resolves ambiguity to the lowest alternative"]
